@@ -470,7 +470,12 @@ class Gen:
                 t["binds"].append(g)
             if ch.bool(1, 6) and self.cfg["access"]:
                 t["private_binds"] = True
-            if not t["abstract"] and ch.bool(1, 5):
+            if not t["abstract"] and self.cfg.get("outside") and ch.bool(1, 6):
+                # finalised by a module procedure of a module that is not part of the project
+                ext = self.name("xtfin")
+                module.setdefault("_outside", []).append(ext)
+                t["finals"].append(ext)
+            elif not t["abstract"] and ch.bool(1, 5):
                 for _ in range(ch.count(1, 2)):
                     fn = self.name("fin")
                     rank = len(t["finals"])
